@@ -28,7 +28,19 @@ class ErrB(KeyError):
     pass
 
 
+class ErrRes(RuntimeError):
+    """An error that carries a resource pickle refuses with TypeError (like a lost connection
+    object): redun records such errors as a generic Exception, and still raises the original."""
+
+    def __init__(self, msg):
+        import threading
+
+        super().__init__(msg)
+        self.resource = threading.Lock()
+
+
 ERRORS = {"ValueError": ValueError, "KeyError": KeyError, "ErrA": ErrA, "ErrB": ErrB,
+          "ErrRes": ErrRes,
           "ZeroDivisionError": ZeroDivisionError, "TypeError": TypeError}
 
 
